@@ -33,7 +33,14 @@ MANIFEST = dict(
          "--null-data -v, several -e/-f, inputs with invalid UTF-8, bare CR, empty lines, missing final terminator — "
          "through real rg, the library searcher (slice, fragmented reader, passthru) and a reference built with "
          "regex-syntax directly and evaluated per stripped line by the extracted Coq semantics; the literal-search model "
-         "(find_lit) is compared with find_candidate_line in C11.",
+         "(find_lit) is compared with find_candidate_line in C11. Smart case (-S): Model/SmartCase.v mirrors AstAnalysis "
+         "(ast.rs) and Config::is_case_insensitive over literals, classes, ranges, nested/negated classes, unions, set "
+         "operations; smart_case_decision_meets_doc proves it equal to the documented rule (insensitive iff -i, or -S and the "
+         "pattern has a literal and no uppercase literal, where both ends of a class range are literals) for every "
+         "is_uppercase predicate; kind 102 compares the case mode the real RegexMatcherBuilder chose (read off the HIR it "
+         "translates) with the model and with an independent walk of the regex-syntax AST; the end-to-end generator draws "
+         "class ranges with ends of mixed kinds (digit/punctuation/upper/lower/non-ASCII, hex escapes, negated, nested, set "
+         "operations) with lines differing only by case.",
     note="partial: the full-strength theorems need local_looks / local_looks_crlf (exclude Unicode \\b/\\B/-w) and the LF or "
          "CRLF terminator; span_ok is a hypothesis; regex-syntax translation and regex-automata trusted (differentially tested)",
     technique="Coq proof over executable semantics + end-to-end differential oracle (rg, library, reference HIR)",
@@ -324,6 +331,181 @@ def gen_smart_case(rng):
     return dict(pats=pats, flags=f, input=data, cli=rng.random() < 0.4)
 
 
+# ---- smart case: class ranges with ends of mixed kinds ------------------------------------------------------------
+# The documented rule counts EVERY literal of the pattern, so an uppercase letter that is only the end (or only the
+# start) of a class range, possibly in a nested / negated class, a set operation, or spelled as a hex escape, makes -S
+# case sensitive.  Kinds of range ends, in code point order:
+MIX_KINDS = dict(
+    digit="0123456789", plow="!#%+,:;<=@", upper="ABCDKQZ", pmid="_`", lower="abcdkqz", phigh="{}",
+    uhi="ÀÜΑΩА", lhi="àüαωа")
+MIX_PAIRS = [("digit", "upper"), ("plow", "upper"), ("digit", "upper"), ("plow", "upper"), ("upper", "lower"), ("upper", "pmid"),
+             ("digit", "lower"), ("plow", "pmid"), ("digit", "digit"), ("lower", "lower"), ("upper", "upper"), ("pmid", "lower"),
+             ("lower", "phigh"), ("digit", "uhi"), ("plow", "uhi"), ("upper", "uhi"), ("lower", "lhi"), ("lower", "uhi"),
+             ("pmid", "lhi"), ("uhi", "lhi"), ("uhi", "uhi"), ("lower", "upper")]   # the last one is an invalid range
+
+
+def spell(rng, ch):
+    """a literal character written plainly or as an escape that still is a literal (\\x41, \\x{5a}, \\u0041)"""
+    r = rng.random()
+    o = ord(ch)
+    if r < 0.8:
+        return ch
+    if r < 0.87 and o < 256:
+        return "\\x%02X" % o
+    if r < 0.94:
+        return "\\x{%x}" % o
+    return "\\u%04X" % o
+
+
+def gen_mixed_items(rng, depth, chars):
+    """the inside of a bracketed class; `chars` collects the literal characters written"""
+    items = []
+    for _ in range(rng.choice([1, 1, 1, 2, 2, 3])):
+        r = rng.random()
+        if r < 0.62:
+            ka, kb = rng.choice(MIX_PAIRS)
+            a, b = rng.choice(MIX_KINDS[ka]), rng.choice(MIX_KINDS[kb])
+            if (ka, kb) != ("lower", "upper") and a > b:
+                a, b = b, a
+            chars += [a, b]
+            items.append(spell(rng, a) + "-" + spell(rng, b))
+        elif r < 0.76:
+            c = rng.choice(MIX_KINDS[rng.choice(["digit", "lower", "lower", "upper", "pmid", "lhi", "uhi"])])
+            chars.append(c)
+            items.append(spell(rng, c))
+        elif r < 0.88 or depth <= 0:
+            items.append(rng.choice(["\\d", "\\w", "[:upper:]", "[:alpha:]", "\\pL", "\\p{Lu}", "\\p{Greek}", "\\s", "[:^lower:]"]))
+        else:
+            items.append("[" + ("^" if rng.random() < 0.35 else "") + gen_mixed_set(rng, depth - 1, chars) + "]")
+    return "".join(items)
+
+
+def gen_mixed_set(rng, depth, chars):
+    a = gen_mixed_items(rng, depth, chars)
+    if depth > 0 and rng.random() < 0.18:
+        b = "[" + ("^" if rng.random() < 0.5 else "") + gen_mixed_items(rng, depth - 1, chars) + "]"
+        return "[" + a + "]" + rng.choice(["&&", "--", "~~"]) + b
+    return a
+
+
+MIX_PREFIX = [("", ""), ("x", "x"), ("x", "x"), ("key=", "key="), ("é", "é"), ("7", "7"), ("\\w", "q"), ("\\pL", "q"),
+              ("X", "X"), ("foo|x", "x"), ("(?:b|x)", "x"), ("(x)", "x"), ("\\x78", "x")]
+MIX_SUFFIX = [("", ""), ("", ""), ("k", "k"), ("\\d", "5"), ("$", ""), ("+y", "y"), ("{2}", None), ("?z", "z"), ("|zq", "")]
+
+
+def swapcases(b):
+    try:
+        t = b.decode("utf-8")
+    except UnicodeDecodeError:
+        return [b]
+    return [x.encode("utf-8") for x in (t, t.swapcase(), t.upper(), t.lower())]
+
+
+def gen_mixed_pattern(rng):
+    chars = []
+    neg = rng.random() < 0.3
+    cls = "[" + ("^" if neg else "") + gen_mixed_set(rng, 2, chars) + "]"
+    (pp, pt), (sp, st) = rng.choice(MIX_PREFIX), rng.choice(MIX_SUFFIX)
+    return pp + cls + sp, pt, st, chars
+
+
+def gen_smart_mixed_case(rng):
+    """-S (sometimes -i / -s as controls) with class ranges whose ends are of mixed kinds; the lines are near misses that
+    differ only by letter case (each candidate line together with its swapcase / upper / lower forms)"""
+    pat, pt, st, chars = gen_mixed_pattern(rng)
+    pats = [pat]
+    if rng.random() < 0.15:
+        pats.insert(rng.randint(0, 1), rng.choice(["q7", "zz", "\\d\\d", "[0-9]k", gen_mixed_pattern(rng)[0]]))
+    f = dict.fromkeys(FLAG_NAMES, False)
+    c = rng.random()
+    if c < 0.86:
+        f["smart"] = True
+    elif c < 0.93:
+        f["icase"] = True
+    if rng.random() < 0.15:
+        f["invert"] = True
+    r = rng.random()
+    if r < 0.08:
+        f["word"] = True
+    elif r < 0.16:
+        f["line"] = True
+    if rng.random() < 0.1:
+        f["crlf"] = True
+    mids = []
+    for ch in chars:
+        mids += [ch, ch.swapcase()]
+    mids += rng.sample("aqzAQZ05_!~éÉβΒ", 4)
+    lines = []
+    for m in rng.sample(mids, min(len(mids), rng.randint(2, 5))):
+        body = m * 2 if st is None else m
+        for v in swapcases((pt + body + (st or "")).encode("utf-8")):
+            if v not in lines:
+                lines.append(v)
+    lines += rng.sample([b"", b"x", b"key=", b"zq", b"ZQ", b"q7", b"Q7", b"x5k", b"X5K"], rng.randint(0, 3))
+    rng.shuffle(lines)
+    lines = lines[:12]
+    data = term(f).join(lines) + (term(f) if rng.random() < 0.85 else b"")
+    return dict(pats=pats, flags=f, input=data, cli=rng.random() < 0.25, via_file=rng.random() < 0.2)
+
+
+SMART_FIXED = ["x[0-Z]", "key=[0-Q]", "key=[^!-Z]", "x[0-9A-Z]", "foo|x[0-Z]", "x[a-z]", "x[0-9]", "[!-Z]k", "x[[0-Z]&&[^5]]",
+               "x[^[0-Z]]", "x[_-Ω]", "x[\\x30-\\x5A]", "x[0-\\x{5a}]k", "[0-Z]+", "x[0-9[:upper:]]", "x[5\\p{Lu}]", "\\pLx", "\\p{Lu}",
+               "x[a-Ü]", "x[0-9--5]", "(?i:x[0-Z])", "x[%-@]", "x[%-A]", "a|[!-K]"]
+
+
+def check_smart_decision(ctx, triples, stats):
+    """kind 102: the case mode the real RegexMatcherBuilder chooses (read off the HIR it translates) against
+    (a) Model/SmartCase.v run on the AST of the same pattern and (b) the documented rule evaluated by the harness's own
+    AST walk; model and documented rule are proved equal (smart_case_decision_meets_doc)"""
+    lines = [vlist([vlist([vbytes(p) for p in pats]), vbool(ic), vbool(sm)]) for pats, ic, sm in triples]
+    co = vlib.code(102, lines)
+    m_in, idx = [], []
+    for i, o in enumerate(co):
+        pats, ic, sm = triples[i]
+        rep = dict(kind=102, pats=pats, icase=ic, smart=sm, line=lines[i])
+        if o in ("PANIC", "MISSING") or o.startswith("PARSEFAIL"):
+            ctx.violation("harness %s on smart-case decision case" % o, rep, nfi=True)
+            continue
+        v = R.L(parse_val(o))
+        if v[0] == 2:
+            stats["smart_decision_rejected"] = stats.get("smart_decision_rejected", 0) + 1
+            continue
+        if v[0] != 0:
+            ctx.violation("builder accepted %r but its case decision cannot be read (status %s)" % (pats, v[0]), rep, nfi=True)
+            continue
+        m_in.append(vlist([R.unparse(v[2]), vbool(ic), vbool(sm), R.unparse(v[1])]))
+        idx.append((i, v, rep))
+    mo = vlib.model(102, m_in)
+    for k, (i, v, rep) in enumerate(idx):
+        pats, ic, sm = triples[i]
+        if mo[k].startswith(("MISSING", "STACK", "PARSEFAIL")):
+            ctx.violation("smart-case model evaluation failed: %s" % mo[k][:40], rep, nfi=True)
+            continue
+        mu, ml, mci = [bool(x) for x in R.L(parse_val(mo[k]))]
+        obs, ol, ou = v[3], bool(v[4]), bool(v[5])
+        oci = ic or (sm and ol and not ou)
+        mode = "-i" if ic else "-S"
+        ctx.note_case(lines_key(rep), obs in (0, 1) and sm and not ic)
+        stats["smart_decision_cases"] = stats.get("smart_decision_cases", 0) + 1
+        if obs == 2:
+            stats["smart_decision_unobservable"] = stats.get("smart_decision_unobservable", 0) + 1
+        if (mu, ml, mci) != (ou, ol, oci):
+            ctx.violation("Model/SmartCase.v gives any_uppercase=%s any_literal=%s insensitive=%s for %r (%s) but the documented "
+                          "rule gives %s %s %s" % (mu, ml, mci, pats, mode, ou, ol, oci), rep, nfi=True)
+        elif obs == 3:
+            ctx.violation("the HIR RegexMatcherBuilder translates for %r (%s) is neither the case-sensitive nor the "
+                          "case-insensitive translation" % (pats, mode), rep, nfi=True)
+        elif obs in (0, 1) and bool(obs) != oci:
+            ctx.violation("smart case: RegexMatcherBuilder searches %r (%s) case-%s, but by the documented rule (literals: "
+                          "any=%s, uppercase=%s) it must be case-%s"
+                          % (pats, mode, "insensitively" if obs else "sensitively", ol, ou,
+                             "insensitive" if oci else "sensitive"), rep)
+
+
+def lines_key(rep):
+    return rep["line"]
+
+
 CTRL_PIECES = ["a", "b", "foo", "\r", "\n", "\r\n", " ", "x", "\r"]
 
 
@@ -421,6 +603,10 @@ CORPUS = [
     (["\\s+([A-Z]foo(\\d+bar)baz|Moriarty)\\s+"], {}, b" Qfoo1barbaz \n Qfoobaz \n Moriarty \n"),
     (["foo[A-z]"], dict(smart=True), b"fooa\nFOOA\nFOO_\n"), (["x[B-b]"], dict(smart=True), b"xb\nXB\nXb\n"),
     (["a\rb"], dict(crlf=True), b"a\rb\r\nab\r\n"), (["a\rb"], dict(crlf=True, fixed=True), b"za\rbq\r\n"),
+    (["x[0-Z]"], dict(smart=True), b"xa\nxA\nx5\nXa\nx_\n"), (["key=[^!-Z]"], dict(smart=True), b"key=q\nkey=Q\nkey=7\n"),
+    (["x[0-Z]"], dict(smart=True, invert=True), b"xa\nxA\nx5\n"), (["key=[0-Q]"], dict(smart=True), b"key=q\nkey=Q\nKEY=7\n"),
+    (["foo|x[0-Z]"], dict(smart=True), b"FOO\nfoo\nxa\nxZ\n"), (["x[0-9]"], dict(smart=True), b"X5\nx5\n"),
+    (["x[[!-K]&&[^5]]"], dict(smart=True, line=True), b"xk\nxK\nx5\nXK\n"), (["x[\\x30-\\x5A]"], dict(smart=True), b"xq\nxQ\n"),
     (["\\d", "\\D"], dict(icase=True), b"1\na\n\n"),
     (["\\S", "\\s"], dict(icase=True), b" \nx\n"),
 ]
@@ -438,9 +624,27 @@ def run(ctx):
         f.update(kw)
         cases.append(dict(pats=pats, flags=f, input=inp))
     check_cases(ctx, cases, stats, cli_every=1)
+    # the smart-case decision itself (kind 102): fixed patterns, the generators' patterns, the general grammar
+    dec = [([p], False, True) for p in SMART_FIXED + SMART_RANGE] + [([a, b], False, True) for a, b in CASE_PAIRS]
+    for _ in range(ctx.count(900)):
+        r = rng.random()
+        if r < 0.7:
+            pats = [gen_mixed_pattern(rng)[0]]
+            if rng.random() < 0.1:
+                pats.append(gen_mixed_pattern(rng)[0])
+        elif r < 0.85:
+            pats = gen_pats(rng, dict(fixed=False))
+        else:
+            pats = [rng.choice(SMART_FIXED + SMART_RANGE)]
+        m = rng.random()
+        dec.append((pats, m > 0.85, m < 0.95))
+    check_smart_decision(ctx, dec, stats)
     special = [gen_multi_case(rng) for _ in range(ctx.count(220))] + [gen_counted_case(rng) for _ in range(ctx.count(200))] + \
         [gen_word_and_line_case(rng) for _ in range(ctx.count(100))] + [gen_nested_case(rng) for _ in range(ctx.count(200))] + [gen_smart_case(rng) for _ in range(ctx.count(200))] + [gen_control_literal_case(rng) for _ in range(ctx.count(200))]
     stats["smart_case_range_cases"] = ctx.count(200)
+    mixed = [gen_smart_mixed_case(rng) for _ in range(ctx.count(500))]
+    stats["smart_case_mixed_range_cases"] = len(mixed)
+    special += mixed
     stats["control_literal_cases"] = ctx.count(200)
     stats["multi_pattern_case_pairs"] = ctx.count(220)
     stats["counted_repetition_cases"] = ctx.count(200)
@@ -463,6 +667,9 @@ def run(ctx):
 
 def replay(ctx, data):
     r = data["replay"]
+    if r.get("kind") == 102:
+        check_smart_decision(ctx, [(r["pats"], r["icase"], r["smart"])], {})
+        return
     if "pats" in r:
         f = dict.fromkeys(FLAG_NAMES, False)
         f.update(r.get("flags", {}))
